@@ -50,8 +50,9 @@ func (v *StructSchema) Merge(other *StructSchema, others ...*StructSchema) *Stru
 // The new schema shares references to the transforms, tests and inner schema.
 func (v *StructSchema) cloneShallow() *StructSchema {
 	new := &StructSchema{
-		postTransforms: v.postTransforms,
-		tests:          v.tests,
+		// copy the slices: appending to the clone must never write into the original's backing array
+		postTransforms: append([]PostTransform(nil), v.postTransforms...),
+		tests:          append([]Test(nil), v.tests...),
 		required:       v.required,
 		schema:         v.schema,
 	}
